@@ -24,6 +24,7 @@ macro_rules! props {
 props! {
     c01 => "C01",
     c05 => "C05",
+    c13 => "C13",
     #[cfg(feature = "full")] c02 => "C02",
     #[cfg(feature = "full")] c06 => "C06",
     #[cfg(feature = "full")] c07 => "C07",
